@@ -5,6 +5,7 @@ import (
 	"sort"
 	"strings"
 	"testing"
+	"time"
 
 	"github.com/weedbox/pokertable"
 
@@ -16,8 +17,17 @@ import (
 
 var c08Stats = ev.New("C08", "c08")
 
-func c08Body(c *run.Ctx) {
+func c08Body(c *run.Ctx) { c08BodyIv(c, 0) }
+
+// c08BodyIv: interval > 0 gives the table a real continue delay of that many seconds;
+// the statement's "pauses if and only if ..." is then judged on what is true when the
+// interval elapses: a drawn operation (a busted player buys chips, a break starts or
+// ends, somebody arrives) lands inside the delay, and the hand is judged only when that
+// operation returned less than 0.9 s after the settlement was published, i.e. certainly
+// before the 1 s continue step ran (otherwise the hand is counted as excluded).
+func c08BodyIv(c *run.Ctx, interval int) {
 	nontrivial := false
+	skipJudge := false
 	withheldBudget := 1 // real 2 s waits per case
 	var hooks sim.Hooks
 	breakPlanned, breakDone := false, false
@@ -46,7 +56,61 @@ func c08Body(c *run.Ctx) {
 			}
 		}
 	}
-	cfg := sim.GenConfig(c.Ch, sim.GenOpts{ShortStacks: 55, SitOutPct: 30, ViaCreatePct: 20, AnteePct: 20, Rules: []int{5, 1}})
+	if interval > 0 {
+		hooks.Settled = func(s *sim.Sim, h *sim.Hand) {
+			skipJudge = false
+			if !choose.Chance(c.Ch, "delay.any", 70) {
+				return
+			}
+			time.Sleep(time.Duration(c.Ch.Int("delay.offset", 0, 6)) * 100 * time.Millisecond)
+			now := s.Now()
+			busted := []string{}
+			for _, p := range now.State.PlayerStates {
+				if p.Bankroll == 0 {
+					busted = append(busted, p.PlayerID)
+				}
+			}
+			kind := choose.Weighted(c.Ch, "delay.kind", []int{7, 2, 2, 2})
+			what := ""
+			switch {
+			case kind == 0 && len(busted) > 0:
+				id := busted[c.Ch.Int("delay.who", 0, len(busted)-1)]
+				bb := s.Cfg.Blind.BB + s.Cfg.Blind.Dealer
+				if choose.Chance(c.Ch, "delay.redeem", 50) {
+					s.Redeem(id, 10*bb+1, "valid")
+				} else {
+					s.Reserve(id, -1, 10*bb+1, "valid")
+				}
+				what = "delay_busted_player_buys_chips"
+			case kind == 1 && now.State.BlindState.Level != -1:
+				b := s.Cfg.Blind
+				s.API.UpdateBlind(-1, b.Ante, b.Dealer, b.SB, b.BB)
+				what = "delay_break_starts"
+			case kind == 2 && now.State.BlindState.Level == -1:
+				b := s.Cfg.Blind
+				s.API.UpdateBlind(b.Level+1, b.Ante, b.Dealer, b.SB, b.BB)
+				what = "delay_break_ends"
+			case kind == 3:
+				mo := sim.MemOpts{NewPlayer: 3, NewRandom: 1, JoinSitter: 2, KeepSitting: 10, MaxNewID: 14}
+				if op := s.RandomMembershipOp(mo); op != nil {
+					what = "delay_arrival"
+				}
+			}
+			if what == "" {
+				return
+			}
+			c.Ch.Note("  %s inside the continue delay", what)
+			if time.Since(h.SettledAt) < 900*time.Millisecond {
+				s.Label(what)
+				nontrivial = true
+			} else {
+				skipJudge = true
+				c.St.Exclude("delay_op_not_certainly_before_the_continue_step", 1)
+			}
+		}
+	}
+	cfg := sim.GenConfig(c.Ch, sim.GenOpts{ShortStacks: 55, SitOutPct: 30, ViaCreatePct: 20, AnteePct: 20, Rules: []int{5, 1}, Modes: []int{3, 2, 1}})
+	cfg.Interval = interval
 	s := sim.New(c.Ch, cfg, hooks)
 	c.Defer(s.Finish)
 	c.Ch.Note("config: %s", cfg.String())
@@ -61,6 +125,10 @@ func c08Body(c *run.Ctx) {
 		c.Inconclusive("first hand could not be set up: %s", s.Stall)
 	}
 	nHands := c.Ch.Int("hist.hands", 3, run.Scale(10, 20))
+	if interval > 0 {
+		nHands = c.Ch.Int("hist.hands.iv", 2, 5)
+		s.Label("real_continue_delay")
+	}
 	for n := 1; n <= nHands; n++ {
 		if s.GateArmed == nil {
 			break
@@ -188,6 +256,12 @@ func c08Body(c *run.Ctx) {
 		if h.SettledT == nil || h.After == nil {
 			break
 		}
+		if skipJudge {
+			if h.Outcome != "gate" {
+				break
+			}
+			continue
+		}
 		alive := len(sim.AlivePlayers(h.After))
 		shouldPause := h.After.State.BlindState.Level == -1 || alive < h.After.Meta.TableMinPlayerCount
 		switch {
@@ -221,6 +295,12 @@ func c08Body(c *run.Ctx) {
 	}
 	s.Label(fmt.Sprintf("hands_%d", len(s.Hands)))
 	c.St.Case(s.Labels(), nontrivial, traceOf(s), sampleOf(s))
+}
+
+var c08iStats = ev.New("C08", "c08i")
+
+func TestC08Interval(t *testing.T) {
+	run.Property(t, "C08", "c08i", c08iStats, run.Scale(5, 20), func(c *run.Ctx) { c08BodyIv(c, 1) })
 }
 
 func TestC08(t *testing.T) {
